@@ -42,6 +42,7 @@ const StreamingPath = "/tcp-over-websocket-bridge/35218cb7-1201-4940-89e8-48d8f0
 type WebsocketNetConn struct {
 	*websocket.Conn
 	bufferedMsg []byte
+	readEOF     bool
 }
 
 // SetDeadline implements the net.Conn interface.
@@ -58,9 +59,17 @@ func (c *WebsocketNetConn) SetDeadline(t time.Time) error {
 // Read implements the io.Reader interface.
 func (c *WebsocketNetConn) Read(bs []byte) (count int, err error) {
 	for len(c.bufferedMsg) == 0 {
+		if c.readEOF {
+			return 0, io.EOF
+		}
 		msgType, msg, err := c.ReadMessage()
 		if err != nil {
 			return 0, err
+		}
+		if msgType == websocket.BinaryMessage && len(msg) == 0 {
+			// The peer has called CloseWrite: everything it wrote has been delivered.
+			c.readEOF = true
+			return 0, io.EOF
 		}
 		if msgType != websocket.TextMessage {
 			continue
@@ -84,6 +93,22 @@ func (c *WebsocketNetConn) Write(bs []byte) (count int, err error) {
 		return 0, fmt.Errorf("error writing a websocket message: %w", err)
 	}
 	return len(bs), nil
+}
+
+// CloseWrite tells the peer that no more data will be written (like TCP's half-close), by
+// sending an empty binary message. It travels in order behind everything written so far, so the
+// peer's Read returns io.EOF only after it has delivered all of that data.
+func (c *WebsocketNetConn) CloseWrite() error {
+	return c.WriteMessage(websocket.BinaryMessage, nil)
+}
+
+// closeWrite half-closes the given connection if it supports that, and closes it otherwise.
+func closeWrite(conn net.Conn) {
+	if cw, ok := conn.(interface{ CloseWrite() error }); ok {
+		cw.CloseWrite()
+		return
+	}
+	conn.Close()
 }
 
 // DialWebsocket establishes a connection with the given server using websocket as the
@@ -131,13 +156,18 @@ func Handler(backendPort int, passthroughHandler http.Handler) http.Handler {
 		defer backendConn.Close()
 		var wg sync.WaitGroup
 		wg.Add(2)
+		// When one side has finished sending, tell the other side (after all of the data), so
+		// that a close of either peer is propagated instead of being held back until the other
+		// peer happens to close too. The connections are released once both directions are done.
 		go func() {
 			defer wg.Done()
 			io.Copy(backendConn, frontendConn)
+			closeWrite(backendConn)
 		}()
 		go func() {
 			defer wg.Done()
 			io.Copy(frontendConn, backendConn)
+			closeWrite(frontendConn)
 		}()
 		wg.Wait()
 	})
